@@ -228,12 +228,13 @@ func c13Interleaves(events []string, a, b string, sepOK bool) bool {
 // ================================================================= HTTP/1.1 capture peer
 
 type c13Resp struct {
-	raw    string // everything the peer writes: interim heads, final head, framed body
-	head   string // the head bytes in raw (interim responses + final head, incl. blank lines)
-	body   string // what a caller is expected to read (plain text of the body)
-	close  bool   // close the connection after writing
-	early  bool   // answer right after the request head, without reading the request body
-	pieces int    // write raw in this many pieces
+	send100 bool   // write "HTTP/1.1 100 Continue" right after the request head, before reading the body
+	raw     string // everything the peer writes: interim heads, final head, framed body
+	head    string // the head bytes in raw (interim responses + final head, incl. blank lines)
+	body    string // what a caller is expected to read (plain text of the body)
+	close   bool   // close the connection after writing
+	early   bool   // answer right after the request head, without reading the request body
+	pieces  int    // write raw in this many pieces
 }
 
 type c13Attempt struct {
@@ -249,6 +250,20 @@ type c13Peer struct {
 	hits     map[string]int
 	captured []c13Attempt
 	conns    []net.Conn
+	busy     int // requests whose head was read and whose capture is not recorded yet
+}
+
+// waitIdle waits until every request the peer started to handle has been recorded.
+func (p *c13Peer) waitIdle() {
+	for i := 0; i < 3000; i++ {
+		p.mu.Lock()
+		b := p.busy
+		p.mu.Unlock()
+		if b == 0 {
+			return
+		}
+		time.Sleep(time.Millisecond)
+	}
 }
 
 func c13NewPeer(t testing.TB) *c13Peer {
@@ -344,11 +359,37 @@ func (p *c13Peer) serve(c net.Conn) {
 				chunked = strings.Contains(strings.ToLower(v), "chunked")
 			}
 		}
+		p.mu.Lock()
+		p.busy++
+		p.mu.Unlock()
 		script, ok := p.next(path)
 		if !ok {
 			script = c13Resp{raw: "HTTP/1.1 599 no script\r\nContent-Length: 0\r\n\r\n"}
 		}
 		att := c13Attempt{head: hs}
+		fail := func() {
+			p.mu.Lock()
+			p.busy--
+			p.mu.Unlock()
+		}
+		if script.send100 {
+			if _, err := c.Write([]byte("HTTP/1.1 100 Continue\r\n\r\n")); err != nil {
+				fail()
+				return
+			}
+		}
+		if script.early {
+			// answer at once, then record whatever the client still sends until it hangs up
+			c.Write([]byte(script.raw))
+			c.SetReadDeadline(time.Now().Add(2 * time.Second))
+			rest, _ := io.ReadAll(br)
+			att.wire = string(rest)
+			p.mu.Lock()
+			p.captured = append(p.captured, att)
+			p.busy--
+			p.mu.Unlock()
+			return
+		}
 		if !script.early {
 			switch {
 			case chunked:
@@ -357,10 +398,12 @@ func (p *c13Peer) serve(c net.Conn) {
 					line, err := br.ReadString('\n')
 					wire.WriteString(line)
 					if err != nil {
+						fail()
 						return
 					}
 					n, err := strconv.ParseInt(strings.TrimSpace(strings.SplitN(line, ";", 2)[0]), 16, 64)
 					if err != nil {
+						fail()
 						return
 					}
 					if n == 0 {
@@ -375,6 +418,7 @@ func (p *c13Peer) serve(c net.Conn) {
 					}
 					buf := make([]byte, n+2)
 					if _, err := io.ReadFull(br, buf); err != nil {
+						fail()
 						return
 					}
 					wire.Write(buf)
@@ -384,6 +428,7 @@ func (p *c13Peer) serve(c net.Conn) {
 			case cl > 0:
 				buf := make([]byte, cl)
 				if _, err := io.ReadFull(br, buf); err != nil {
+					fail()
 					return
 				}
 				att.wire, att.payload = string(buf), string(buf)
@@ -391,6 +436,7 @@ func (p *c13Peer) serve(c net.Conn) {
 		}
 		p.mu.Lock()
 		p.captured = append(p.captured, att)
+		p.busy--
 		p.mu.Unlock()
 		raw := script.raw
 		n := script.pieces
@@ -421,7 +467,8 @@ type c13Scenario struct {
 	bodyVia string // "", "bytes", "reader" (unknown length: chunked), "chunked" (forced)
 	scripts map[string][]c13Resp
 	retry   bool
-	class   string // known-finding class this input belongs to ("" = none)
+	expect  bool     // Expect: 100-continue exchange (short ExpectContinueTimeout)
+	class   string   // known-finding class this input belongs to ("" = none)
 	order   []string // paths hit, in order, for the expected response side
 }
 
@@ -657,6 +704,24 @@ func c13GenScenario(s *verifh.Session, flow, feature string) *c13Scenario {
 		first := c13GenResp(s, verifh.Pick(r, []int{500, 503}), "", "plain")
 		sc.scripts[sc.path] = []c13Resp{first, c13GenResp(s, final, feature, bodyKind)}
 		sc.order = []string{sc.path, sc.path}
+	case "expect-continue", "expect-reject":
+		// Expect: 100-continue with a body; the peer either sends 100 Continue and then the
+		// final response, or rejects at once (417, Connection: close) without reading the body.
+		sc.method = "POST"
+		sc.body = verifh.RandBytes(r, 100+r.Intn(6000), "abcdefgh0123456789")
+		sc.bodyVia = "bytes"
+		sc.headers = append(sc.headers, [2]string{"Expect", "100-continue"})
+		sc.expect = true
+		if flow == "expect-continue" {
+			resp := c13GenResp(s, final, feature, bodyKind)
+			resp.send100 = true
+			resp.head = "HTTP/1.1 100 Continue\r\n\r\n" + resp.head
+			sc.scripts[sc.path] = []c13Resp{resp}
+		} else {
+			head := "HTTP/1.1 417 Expectation Failed\r\nConnection: close\r\nContent-Length: 2\r\n\r\n"
+			sc.scripts[sc.path] = []c13Resp{{raw: head + "no", head: head, body: "no", early: true, pieces: 1}}
+		}
+		sc.order = []string{sc.path}
 	case "redirect":
 		target := sc.path + "/target"
 		code := verifh.Pick(r, []int{301, 302, 307, 308})
@@ -691,6 +756,9 @@ func c13RunH1(peer *c13Peer, sc *c13Scenario, cfg *c13DumpCfg, viaSet bool, time
 				return err != nil || (resp != nil && resp.Response != nil && resp.StatusCode >= 500)
 			})
 	}
+	if sc.expect {
+		cl.Transport.SetExpectContinueTimeout(400 * time.Millisecond)
+	}
 	rq := cl.R()
 	for _, h := range sc.headers {
 		rq.SetHeader(h[0], h[1])
@@ -719,6 +787,7 @@ func c13RunH1(peer *c13Peer, sc *c13Scenario, cfg *c13DumpCfg, viaSet bool, time
 		cl.DisableDumpAll()
 	}
 	cl.CloseIdleConnections()
+	peer.waitIdle()
 	out.attempts = peer.reset()
 	return out
 }
@@ -815,6 +884,7 @@ func TestVerif_C13_e2eh1(t *testing.T) {
 	peer := c13NewPeer(t)
 	defer peer.close()
 	flows := []string{"single", "single", "single", "retry", "redirect"}
+	expectBudget := verifh.N(4, 80)
 	features := []string{"", "", "", "", "1xx", "long", "long-status", "many", "fold", "barelf", "nearly-long"}
 	n := verifh.N(160, 6000)
 	var pend []*c13Pending
@@ -822,6 +892,11 @@ func TestVerif_C13_e2eh1(t *testing.T) {
 	for c := 0; c < n; c++ {
 		flow := flows[c%len(flows)]
 		feature := verifh.Pick(r, features)
+		if expectBudget > 0 && c%9 == 4 {
+			expectBudget--
+			flow = []string{"expect-reject", "expect-continue"}[expectBudget%2]
+			feature = ""
+		}
 		sc := c13GenScenario(s, flow, feature)
 		subset := (c*7 + r.Intn(16)) % 16
 		if c < 32 {
@@ -845,6 +920,17 @@ func TestVerif_C13_e2eh1(t *testing.T) {
 				sub2 = r.Intn(16)
 			}
 			cfg.rq = c13GenDumper(s, 20, sub2, rqAsync)
+		}
+		if flow == "expect-reject" {
+			// make sure the request head is dumped by someone in these few cases
+			if cfg.cl != nil {
+				cfg.cl.flags[0] = true
+			} else {
+				cfg.rq.flags[0] = true
+			}
+			if sc.class == "" {
+				sc.class = "h1-expect-continue-head-not-flushed"
+			}
 		}
 		timeout := 5 * time.Second
 		if cfg.rq != nil && cfg.rq.async {
@@ -927,7 +1013,7 @@ func TestVerif_C13_e2eh1(t *testing.T) {
 		pend = append(pend, p)
 	}
 	c13Finish(t, s, pend)
-	for _, must := range []string{"flow=retry", "flow=redirect", "feature=long", "feature=fold", "feature=many", "level=both", "client-async", "req-body-via-reader", "req-body-via-chunked", "baseline-ok"} {
+	for _, must := range []string{"flow=retry", "flow=redirect", "flow=expect-reject", "flow=expect-continue", "feature=long", "feature=fold", "feature=many", "level=both", "client-async", "req-body-via-reader", "req-body-via-chunked", "baseline-ok"} {
 		if cnt[must] == 0 {
 			t.Errorf("generator never reached bucket %q", must)
 		}
